@@ -281,10 +281,31 @@ Proof.
   split; [|exact C]. rewrite E, <- view_length. apply swap_loop_rev.
 Qed.
 
+(* ---------- assignment to several positions at once ---------- *)
+Lemma view_setmany n : forall (its : list (nat * dnf)) p, (forall t, In t its -> wf_formula n (snd t)) -> clean n p ->
+  view (fold_left (fun q (t : nat * dnf) => setitem q (fst t) (snd t)) its p)
+  = fold_left (fun m (t : nat * dnf) => set_nth (fst t) (snd t) m) its (view p)
+  /\ clean n (fold_left (fun q (t : nat * dnf) => setitem q (fst t) (snd t)) its p).
+Proof.
+  induction its as [|[i f] its IH]; intros p Hf Hp; cbn [fold_left fst snd]; [split; [reflexivity|exact Hp]|].
+  destruct (Hf (i, f) (or_introl eq_refl)) as [_ [Hne Hu]]. cbn [snd] in Hne, Hu.
+  destruct (IH (setitem p i f)) as [E C].
+  - intros t Ht. apply Hf. right. exact Ht.
+  - apply clean_setitem; assumption.
+  - split; [|exact C]. rewrite E, view_setitem by exact Hne. reflexivity.
+Qed.
+Lemma rows_wf_setmany n : forall (its : list (nat * dnf)) l, rows_wf n l -> (forall t, In t its -> wf_formula n (snd t)) ->
+  rows_wf n (fold_left (fun m (t : nat * dnf) => set_nth (fst t) (snd t) m) its l).
+Proof.
+  induction its as [|[i f] its IH]; intros l Hl Hf; cbn [fold_left fst snd]; [exact Hl|]. apply IH.
+  - apply rows_wf_set_nth; [exact Hl|]. apply (Hf (i, f)). left. reflexivity.
+  - intros t Ht. apply Hf. right. exact Ht.
+Qed.
+
 (* ---------- one step and whole histories ---------- *)
 Lemma rows_wf_apply n l o : rows_wf n l -> legal n l o -> rows_wf n (apply_list l o).
 Proof.
-  intros Hl Ho. destruct o as [i f|i f|f|i| |fs|idx|]; cbn [apply_list legal] in *.
+  intros Hl Ho. destruct o as [i f|i f|f|i| |fs|idx|idx fs|]; cbn [apply_list legal] in *.
   - apply rows_wf_set_nth; tauto.
   - intros g Hg. apply in_insert_nth in Hg as [->|Hg]; [tauto|apply Hl; exact Hg].
   - intros g Hg. apply in_app_or in Hg as [Hg|[<-|[]]]; [apply Hl; exact Hg|exact Ho].
@@ -293,13 +314,14 @@ Proof.
     rewrite removelast_last in Hg. apply in_or_app. left. exact Hg.
   - intros g Hg. apply in_app_or in Hg as [Hg|Hg]; [apply Hl|apply Ho]; exact Hg.
   - intros g Hg. apply in_del_many in Hg. apply Hl. exact Hg.
+  - destruct Ho as [_ [_ Hf]]. apply rows_wf_setmany; [exact Hl|]. intros [i0 f0] Ht. apply Hf. apply in_combine_r in Ht. exact Ht.
   - intros g Hg. apply in_rev in Hg. apply Hl. exact Hg.
 Qed.
 
 Theorem step_refines n p o : clean n p -> rows_wf n (view p) -> legal n (view p) o ->
   view (apply_op p o) = apply_list (view p) o /\ clean n (apply_op p o).
 Proof.
-  intros Hc Hwf Ho. destruct o as [i f|i f|f|i| |fs|idx|]; cbn [apply_op apply_list legal] in *.
+  intros Hc Hwf Ho. destruct o as [i f|i f|f|i| |fs|idx|idx fs|]; cbn [apply_op apply_list legal] in *.
   - destruct Ho as [_ [_ [Hne Hu]]]. split; [apply view_setitem; exact Hne|apply clean_setitem; assumption].
   - destruct Ho as [Hi [_ [Hne Hu]]]. rewrite view_length in Hi.
     split; [apply view_insert; assumption|apply clean_insert; assumption].
@@ -311,6 +333,7 @@ Proof.
   - split.
     + unfold view. cbn [prow]. apply map_del_many.
     + intros r Hr. cbn [prow] in Hr. apply in_del_many in Hr. apply Hc. exact Hr.
+  - destruct Ho as [_ [_ Hf]]. apply view_setmany; [|exact Hc]. intros [i0 f0] Ht. apply Hf. apply in_combine_r in Ht. exact Ht.
   - apply view_reverse; assumption.
 Qed.
 
